@@ -11,6 +11,16 @@
    model's recursion and is immaterial (run_fuel_irrelevant).  All theorems quantify over ALL graphs,
    inputs, request lists and component bodies.
 
+   Bodies that CATCH the exception of a lazy input ([TryForce]: `try: x.get() except Exception: ...`):
+   at_most_once, only_if_needed (i), failed_node_not_retried, cycle_rejected, rerun_after_failure and the
+   builder theorems hold for them as for all bodies.  The theorems that compare the run with the
+   memo-free evaluation ([run_correct], [value_independent_of_consumer], [only_if_needed] (ii)/(iii),
+   [declaration_order_irrelevant], [run_fuel_irrelevant]) and [exception_transparent] carry the
+   hypothesis [catch_free g] (no body of g catches): after a caught failure the runner answers a second
+   request of the failed node with its own "previously failed" error instead of evaluating the node
+   again (that is what keeps "at most once"), which a memo-free evaluation cannot express, and a caught
+   exception by definition does not reach the caller.
+
    Property text -> theorem:
    * "running the pipeline returns exactly the values obtained by evaluating the graph as a pure
      dataflow program ... a missing required input or wrongly-typed value is reported as an error"
@@ -25,20 +35,21 @@
      execute only when actually consulted"             -> only_if_needed, fallback_only_when_consulted
    * "Cyclic wirings are rejected"                     -> cycle_rejected
    * "an exception raised inside a component reaches the caller unchanged"
-                                  -> exception_transparent
+                                  -> exception_transparent, failed_node_not_retried
    * "and leaves the pipeline fully usable for later runs"
                                   -> rerun_after_failure (uses the shape facts REGENERATED from the
                                      source on every run: Gen/C02_shape.v) *)
 From Coq Require Import ZArith List Bool Arith Lia Permutation.
 From LK Require Import Model.C02_runner Gen.C02_shape
-  Proofs.C02_basic Proofs.C02_den Proofs.C02_correct Proofs.C02_cycle Proofs.C02_order Proofs.C02_shapeok.
+  Proofs.C02_basic Proofs.C02_den Proofs.C02_correct Proofs.C02_cycle Proofs.C02_order Proofs.C02_shapeok
+  Proofs.C02_catch.
 Import ListNotations.
 Open Scope list_scope.
 
 (* The runner with its memo table returns what the memo-free dataflow evaluation returns: the
    values of the requested nodes, or the error that evaluation meets first in request order. *)
 Theorem run_correct : forall (g : graph) (inputs : list (name * val)) (rank : name -> nat),
-  ranked g rank -> forall F, (forall n, rank n < F) ->
+  ranked g rank -> forall F, (forall n, rank n < F) -> catch_free g ->
   forall ns, pipeline_run g inputs F ns = den_outcome g inputs F ns.
 Proof. exact run_correct_l. Qed.
 Print Assumptions run_correct.
@@ -55,12 +66,12 @@ Print Assumptions den_is_dataflow.
    executed components; "no value" for an optional consumer is exactly the missing-input error for a
    requiring one; an error stays an error. *)
 Theorem value_independent_of_consumer : forall g inputs rank, ranked g rank -> forall F, (forall n, rank n < F) ->
-  forall n, rel2 (den g inputs F n false) (den g inputs F n true).
+  catch_free g -> forall n, rel2 (den g inputs F n false) (den g inputs F n true).
 Proof. exact D_rel2. Qed.
 Print Assumptions value_independent_of_consumer.
 
 Theorem run_fuel_irrelevant : forall g inputs rank F1 F2 ns,
-  ranked g rank -> (forall n, rank n < F1) -> (forall n, rank n < F2) ->
+  ranked g rank -> (forall n, rank n < F1) -> (forall n, rank n < F2) -> catch_free g ->
   pipeline_run g inputs F1 ns = pipeline_run g inputs F2 ns.
 Proof. exact run_fuel_irrelevant_l. Qed.
 Print Assumptions run_fuel_irrelevant.
@@ -69,7 +80,7 @@ Print Assumptions run_fuel_irrelevant.
    run fails (which of several independent errors is reported follows the request order). *)
 Theorem declaration_order_irrelevant : forall g g' inputs rank F ns ns',
   NoDup (map fst g) -> Permutation g g' -> Permutation ns ns' -> ns <> [] ->
-  ranked g rank -> (forall n, rank n < F) ->
+  ranked g rank -> (forall n, rank n < F) -> catch_free g ->
   (forall n, node_value g inputs F n = node_value g' inputs F n) /\
   (forall vs, pipeline_run g inputs F ns = Values vs -> vs = map (node_value g inputs F) ns) /\
   (forall vs, pipeline_run g' inputs F ns' = Values vs -> vs = map (node_value g inputs F) ns') /\
@@ -77,7 +88,8 @@ Theorem declaration_order_irrelevant : forall g g' inputs rank F ns ns',
 Proof. exact order_irrelevant_l. Qed.
 Print Assumptions declaration_order_irrelevant.
 
-(* Any graph (cyclic or not), any fuel, failing or not: no component body is called twice. *)
+(* Any graph (cyclic or not), any bodies (catching ones included), any fuel, failing or not: no
+   component body is called twice. *)
 Theorem at_most_once : forall g inputs fuel ns s e,
   run_all g inputs fuel ns = (s, e) -> NoDup (log s).
 Proof. exact at_most_once_l. Qed.
@@ -89,14 +101,14 @@ Print Assumptions at_most_once.
 Theorem only_if_needed :
   (forall g inputs fuel ns s e c, run_all g inputs fuel ns = (s, e) -> In c (log s) ->
      exists root, In root (requests g ns) /\ reach g root c) /\
-  (forall g inputs rank, ranked g rank -> forall F, (forall n, rank n < F) ->
+  (forall g inputs rank, ranked g rank -> forall F, (forall n, rank n < F) -> catch_free g ->
      (forall ns s e c, run_all g inputs F ns = (s, e) -> In c (log s) ->
         exists root, In root (requests g ns) /\ needs g inputs F root c) /\
      (forall ns s root c, run_all g inputs F ns = (s, None) ->
         In root (requests g ns) -> needs g inputs F root c -> In c (log s))).
 Proof.
   split; [exact only_reachable_l|].
-  intros g inputs rank Hr F HF. split; [exact (only_if_needed_l g inputs rank Hr F HF)|exact (needed_executed_l g inputs rank Hr F HF)].
+  intros g inputs rank Hr F HF Hcf. split; [exact (only_if_needed_l g inputs rank Hr F HF Hcf)|exact (needed_executed_l g inputs rank Hr F HF Hcf)].
 Qed.
 Print Assumptions only_if_needed.
 
@@ -164,12 +176,26 @@ Print Assumptions cycle_rejected.
 (* If the run ends with exception e, every node that failed during the run failed with that very e,
    and e was created at one place: a diagnostic of the runner or a Raise in some component's body.
    If the run succeeds no node failed.  (Any graph, any fuel.) *)
-Theorem exception_transparent : forall g inputs fuel ns s,
+Theorem exception_transparent : forall g inputs, catch_free g -> forall fuel ns s,
   (forall e, run_all g inputs fuel ns = (s, Some e) ->
      (forall m e', stat s m = Failed e' -> e' = e) /\ origin g e) /\
   (run_all g inputs fuel ns = (s, None) -> forall m e', stat s m <> Failed e').
 Proof. exact exception_transparent_l. Qed.
 Print Assumptions exception_transparent.
+
+(* When a body catches the failure of a lazy input and the run goes on (any graph, any bodies, any
+   fuel): a node that failed is never evaluated again in that run -- asking for it returns the runner's
+   "previously failed" error and leaves the state (in particular the execution log) untouched --, and
+   whatever runs afterwards it stays failed with the same exception, as a finished node stays finished.
+   Together with at_most_once: a raising component runs once however many consumers reach it. *)
+Theorem failed_node_not_retried : forall g inputs,
+  (forall fuel s n r e, stat s n = Failed e -> run g inputs (S fuel) s n r = (s, Err EFailed)) /\
+  (forall fuel s n r s' res, run g inputs fuel s n r = (s', res) ->
+     forall m, (stat s m = Finished -> stat s' m = Finished) /\ (forall e, stat s m = Failed e -> stat s' m = Failed e)) /\
+  (forall fuel ns s s' x, run_list g inputs fuel s ns = (s', x) ->
+     forall m, (stat s m = Finished -> stat s' m = Finished) /\ (forall e, stat s m = Failed e -> stat s' m = Failed e)).
+Proof. exact failed_not_retried_l. Qed.
+Print Assumptions failed_node_not_retried.
 
 (* Runs made one after another on the same pipeline object -- each starting from what the source says
    a run starts from -- return what each would return on its own, whatever failed before. *)
@@ -178,12 +204,16 @@ Theorem rerun_after_failure : forall g fuel reqs,
 Proof. exact rerun_l. Qed.
 Print Assumptions rerun_after_failure.
 
-(* the shape of the source the model relies on (regenerated on every run) *)
+(* the shape of the source the model relies on (regenerated on every run): a run starts from a fresh
+   all-pending runner and does not assign to the pipeline; the status dispatch (a failed node is refused,
+   not evaluated again); connect()/default_connection() wire a Node by its name and turn every other
+   argument -- strs spelled like node names included -- into a new literal node *)
 Theorem shape_as_modelled :
   runner_fresh_per_run = true /\ init_all_pending = true /\ init_state_empty = true /\
   pipeline_methods_assigning_self = [] /\ handler_reraises_same_exception = true /\
   status_dispatch = expected_dispatch /\ status_writes = expected_writes /\
-  pipeline_members_used = expected_members.
+  pipeline_members_used = expected_members /\
+  connect_wiring = expected_connect /\ default_connection_body = expected_default_connection.
 Proof. exact shape_l. Qed.
 Print Assumptions shape_as_modelled.
 
@@ -210,7 +240,7 @@ Example c02_nonvacuous :
   let g := resolve ex_builder in
   let F := 2 + length g in
   build ex_builder = Some g /\
-  ranked g (fun n => Nat.min n 5) /\ (forall n : nat, Nat.min n 5 < F) /\
+  ranked g (fun n => Nat.min n 5) /\ (forall n : nat, Nat.min n 5 < F) /\ catch_free g /\
   (* requested through its alias; inc (node 1) is skipped; c1 runs, then the body of `both` starts and
      forces its lazy input c2: each once *)
   snd (run_all g [] F [resolve_alias (b_aliases ex_builder) 100]) = None /\
@@ -224,5 +254,23 @@ Proof.
     rewrite E. reflexivity. }
   split; [apply ranked_b_sound; vm_compute; reflexivity|].
   split; [intros n; change (length (resolve ex_builder)) with 5; lia|].
+  split.
+  { intros n ps body Hin a. unfold ex_builder, resolve in Hin. cbn [map b_nodes fst snd resolve_node In] in Hin.
+    repeat (destruct Hin as [Hin|Hin]; [inversion Hin; subst; apply body_of_nocatch; reflexivity|]).
+    destruct Hin. }
   repeat split; vm_compute; reflexivity.
 Qed.
+
+(* non-vacuity for catching bodies: node 0 raises, node 1 takes it lazily and catches, node 2 takes it
+   eagerly.  The consumer's value comes back; the failed node, asked for again (directly or through node
+   2), is not run a second time. *)
+Example c02_catching_nonvacuous :
+  pipeline_run catch_graph [] 5 [1] = Values [Some (VInt 7)] /\
+  pipeline_run catch_graph [] 5 [1; 0] = Raised EFailed /\
+  rev (log (fst (run_all catch_graph [] 5 [1; 0]))) = [1; 0] /\
+  pipeline_run catch_graph [] 5 [1; 1; 2] = Raised EFailed /\
+  rev (log (fst (run_all catch_graph [] 5 [1; 1; 2]))) = [1; 0] /\
+  pipeline_run catch_graph [] 5 [2; 1] = Raised (EComp 5) /\
+  stat (fst (run_all catch_graph [] 5 [1; 0])) 0 = Failed (EComp 5) /\
+  stat (fst (run_all catch_graph [] 5 [1; 0])) 1 = Finished.
+Proof. exact catch_example. Qed.
